@@ -478,7 +478,10 @@ func vCrashCheck1(c *vCtx, cfg vCrashCfg, h *vCrashHistory, p vCrashPoint, prop 
 		if present > 0 && torn {
 			cause := ""
 			if !noWitness[id] {
-				cause = "torn-segment-partially-decoded-into-shared-templates"
+				// the in-flight operation is part of the witness: on this tree only a flush
+				// whose write FAILED (and the two-memtable flush) leave a torn segment whose
+				// hybrid file is complete enough to be decoded
+				cause = "torn-segment-partially-decoded-into-shared-templates:" + cfg.InFlight
 			}
 			c.Violation("incomplete-segment-contributed-documents", cause, cfgS, hist, fmt.Sprintf("document %d of the in-flight memtable is returned by %d probes although its segment is incomplete; segments in image %v", id, present, segFiles))
 		} else if present > 0 && absent > 0 {
